@@ -164,6 +164,12 @@ def run(ctx: Ctx):
     with lean_lock():
         ctx.extract("Agents", x_agents.emit)
         ctx.extract("AgentsCtl", x_ctl.emit)
+        if ctx.extract("AgentsGet", x_ctl.emit_get):
+            import re
+            from harness.lib.core import GEN
+            m = re.search(r"def untranslated : List \(String × String\) := \[(.*)\]", (GEN / "AgentsGet.lean").read_text())
+            for part, why in re.findall(r'\("([^"]*)", "([^"]*)"\)', m.group(1) if m else ""):
+                ctx.oblige(f"extract:AgentsGet:{part}", "extractor", False, why)
         ctx.prove(MODULES, exes=[EXE], clean=False, leanchecker=ctx.thorough)
     _gen_obligations(ctx)
     _vector_counter_models(ctx)
